@@ -69,11 +69,11 @@ class Tables:
         return self.c[i] if i < len(self.c) else None
 
 
-def run_clauses(tl, free_fracs, what):
+def run_clauses(tl, free_fracs, what, engine=None):
     from simfile.timing.engine import EventTag
 
     m = Model(tl)
-    eng = build_engine(tl)
+    eng = engine if engine is not None else build_engine(tl)
     tags = [EventTag[n] for n in TAG_NAMES]
     WARP = EventTag["WARP"]
     cands = [b for b in m.probe_beats() if (b * 48).denominator == 1]
@@ -198,6 +198,19 @@ def check(case):
                     f"redundant BPM changes at ticks {ins} change the beat found at time_at({key[0]}, {TAG_NAMES[key[1]]}): "
                     f"{va} -> {vb}; timeline {tl}",
                 )
+
+    # an engine built from the same TimingData object after equal-length in-place edits must answer for the edited data
+    from simfile.ssc import SSCSimfile
+    from simfile.timing import TimingData
+    from simfile.timing.engine import TimingEngine
+    from ..model_timing import simfile_text
+    from .c11 import edit_in_place
+
+    td = TimingData(SSCSimfile(string=simfile_text(tl)))
+    TimingEngine(td).beat_at(1.0)
+    tl_b = edit_in_place(tl, td, "replace")
+    _m3, _a3, ev3 = run_clauses(tl_b, free[:6], f"(engine built from a TimingData object edited in place, originally {tl})", engine=TimingEngine(td))
+    evals += ev3
 
     labs = set(m.coincidences())
     strong = {l for l in labs if l.startswith(("stop-", "delay-", "same-beat", "warps-"))}
